@@ -15,7 +15,7 @@ for u in units:
     f = os.path.join(d, u.id + '.rs'); open(f, 'w').write(src)
     worst = 0
     for seed in range(1, n + 1):
-        r = subprocess.run(['verus', f, '--triggers-mode', 'silent', '--output-json', '--time', '--smt-option', f'smt.random_seed={seed}', '--smt-option', f'sat.random_seed={seed}'],
+        r = subprocess.run(['verus', f, '--triggers-mode', 'silent', '--output-json', '--time', '--smt-option', f'smt.random_seed={seed}', '--smt-option', f'sat.random_seed={seed}'] + (['--rlimit', str(u.rlimit)] if u.rlimit else []),
                            capture_output=True, text=True, cwd=d)
         try:
             j = json.loads(r.stdout); ok = j['verification-results']['errors'] == 0
